@@ -447,3 +447,24 @@ fn conserve_capacity() {
     assert_eq!(arena.count(), 3);
     assert_eq!(arena.capacity(), cap);
 }
+
+/// Read-only accessors used by the external verification harness.
+/// Compiled only with `--cfg indextree_verif`.
+#[cfg(indextree_verif)]
+impl<T> Arena<T> {
+    /// Returns `(first_free_slot, last_free_slot)`.
+    pub fn verif_free_ends(&self) -> (Option<usize>, Option<usize>) {
+        (self.first_free_slot, self.last_free_slot)
+    }
+
+    /// Returns the raw stamp of slot `index0` and, if the slot is on the free
+    /// list representation (`NodeData::NextFree`), its `next free` link.
+    pub fn verif_slot(&self, index0: usize) -> (i16, Option<Option<usize>>) {
+        let node = &self.nodes[index0];
+        let next_free = match node.data {
+            NodeData::Data(_) => None,
+            NodeData::NextFree(next) => Some(next),
+        };
+        (node.stamp.verif_raw(), next_free)
+    }
+}
